@@ -360,6 +360,34 @@ theorem model_sup_norm_sub_le_model_bottleneck_finite
     (by rw [finitePart, filterFinite_lift]; exact hpos) (by rw [finitePart, filterFinite_lift]; exact hpos')
     hP hQ hfP hfQ hR hm hr hd
 
+/-- **trace-free form**: when the births of the finite bars of each diagram are pairwise distinct (or their
+    deaths are), the shortcut cannot fire (`C03.sweep_fired_zero_of_distinct_births` / `_deaths`), so the hypothesis
+    about the run disappears: whatever the landscape constructor, `-`, `sup_norm` and `bottleneck` models
+    return on such diagrams satisfies `m ≤ d` -/
+theorem model_sup_norm_sub_le_model_bottleneck_of_distinct
+    {oracle : Graph → Matching} (ho : OracleMax oracle)
+    (dgms dgms' : List (List (ℝ × Option ℝ))) (h : ℕ) (d1 d2 : List (ℝ × Option ℝ))
+    (hd1 : dgms[h]? = some d1) (hd2 : dgms'[h]? = some d2)
+    (hpos1 : ∀ p ∈ finitePart d1, p.1 < p.2) (hpos2 : ∀ p ∈ finitePart d2, p.1 < p.2)
+    (hn1 : ((finitePart d1).map Prod.fst).Nodup ∨ ((finitePart d1).map Prod.snd).Nodup)
+    (hn2 : ((finitePart d2).map Prod.fst).Nodup ∨ ((finitePart d2).map Prod.snd).Nodup)
+    {oP oQ : Out ℝ} (hP : Landscape.exact dgms (h : Int) = .ok oP) (hQ : Landscape.exact dgms' (h : Int) = .ok oQ)
+    {R : PLArith.Exact ℝ} (hR : (⟨h, oP.cps⟩ : PLArith.Exact ℝ).sub ⟨h, oQ.cps⟩ = .ok R)
+    {m : ℝ} (hm : supNormExact R.cps = .ok m)
+    {r : Result ℝ} {d : ℝ} (hr : bottleneck oracle d1 d2 = some r) (hd : r.value = .fin d) :
+    m ≤ d := by
+  have hsP := exact_ok_sweep dgms h d1 hd1 hP
+  have hsQ := exact_ok_sweep dgms' h d2 hd2 hQ
+  have hfP : oP.fired = 0 := by
+    rcases hn1 with hn | hn
+    · exact C03.sweep_fired_zero_of_distinct_births _ hn _ hsP
+    · exact C03.sweep_fired_zero_of_distinct_deaths _ hn _ hsP
+  have hfQ : oQ.fired = 0 := by
+    rcases hn2 with hn | hn
+    · exact C03.sweep_fired_zero_of_distinct_births _ hn _ hsQ
+    · exact C03.sweep_fired_zero_of_distinct_deaths _ hn _ hsQ
+  exact model_sup_norm_sub_le_model_bottleneck ho dgms dgms' h d1 d2 hd1 hd2 hpos1 hpos2 hP hQ hfP hfQ hR hm hr hd
+
 end
 
 /-! ### non-vacuity: every hypothesis is met by concrete, non-trivial diagrams
@@ -467,5 +495,16 @@ example : Landscape.exact [lift (exBars ℝ)] 0 = .ok (exP ℝ) ∧ Landscape.ex
       keyLe, outer, dupLoop, Landscape.inner, popFirst, insertPos, pyInsert]
   · norm_num [lift, exBars', exQ, Landscape.exact, selectBars, dropTrailingInf, finiteBars, sweep, stableSort, insSorted,
       keyLe, outer, dupLoop, Landscape.inner, popFirst, insertPos, pyInsert]
+
+/-- the extra hypotheses of the trace-free form on the same example: pairwise distinct births on both sides -/
+example : ((finitePart (exD ℝ)).map Prod.fst).Nodup ∧ ((finitePart (exD' ℝ)).map Prod.fst).Nodup := by
+  constructor <;> simp [finitePart, filterFinite, exD, exD', List.filterMap]
+
+/-- … hence `1 ≤ d` for these diagrams with no hypothesis about the run of the sweep -/
+example {oracle : Graph → Matching} (ho : OracleMax oracle) {r : Result ℝ} {d : ℝ}
+    (hr : bottleneck oracle (exD ℝ) (exD' ℝ) = some r) (hd : r.value = .fin d) : 1 ≤ d :=
+  model_sup_norm_sub_le_model_bottleneck_of_distinct ho [exD ℝ] [exD' ℝ] 0 (exD ℝ) (exD' ℝ) rfl rfl ex_pos.1 ex_pos.2
+    (Or.inl (by simp [finitePart, filterFinite, exD, List.filterMap])) (Or.inl (by simp [finitePart, filterFinite, exD', List.filterMap]))
+    ex_runs.1 ex_runs.2.1 ex_runs.2.2.1 ex_runs.2.2.2 hr hd
 
 end PersimVerif.C10Model
